@@ -83,7 +83,7 @@ def run(chk, args):
     # the two decisions as the pinned code takes them: a counterexample is a candidate, replayed below
     jobs.append(("mc-addfield-code", cfg(fields='{"i"}', k=1, docs=2, revs=2, addq="TRUE", keepst="TRUE"), 1, 900, ()))
     jobs.append(("mc-unique-code", cfg(fields='{"i"}', k=1, docs=3, revs=2, uniq="TRUE", keepst="TRUE"), 2, 900, ()))
-    nsim, per, depth = (8, 120, 30) if thorough else (4, 30, 24)
+    nsim, per, depth = (8, 120, 30) if thorough else (4, 24, 24)
     for i in range(nsim):
         nested = i % 2 == 1
         jobs.append(("sim-%d" % i,
@@ -182,15 +182,18 @@ def run(chk, args):
             "maxdepth:search-returns-documents:LIKE", "maxdepth:orderby",
             "maxdepth:probe-search-finds-document", "maxdepth:probe-unique-index-refuses-duplicate"]
     missing = [k for k in need if ctr.get(k, 0) == 0]
-    if missing:
+    if missing and chk.violations:
+        # a defect may starve the counters (a probe that finds its defect does not count its success): the verdict is the violation
+        chk.notes.append({"not-reached-because-of-violations": missing})
+    elif missing:
         raise MachineryFault("vacuous replay, never reached: %s" % ", ".join(missing))
-    if ctr.get("toodeep:addfield-accepted", 0) + ctr.get("toodeep:addfield-refused", 0) == 0:
+    if ctr.get("toodeep:addfield-accepted", 0) + ctr.get("toodeep:addfield-refused", 0) == 0 and not chk.violations:
         raise MachineryFault("vacuous replay: no field deeper than the maximum nesting was offered to AddField")
     rare = ["maxdepth:unique-index-refused-duplicate", "rejected:removefield", "rejected:replace", "createindex:limited-index-creation", "replace:conflict"]
     if [k for k in rare if ctr.get(k, 0) == 0]:
         chk.notes.append({"not-reached-in-this-run": [k for k in rare if ctr.get(k, 0) == 0]})
     total = r.get("traces", 0)
-    if ctr.get("replays:complete", 0) * 3 < total:
+    if ctr.get("replays:complete", 0) * 3 < total and not chk.violations:
         raise MachineryFault("only %d of %d replays ran to the end of their behaviour" % (ctr.get("replays:complete", 0), total))
     if ctr.get("replays:stopped-decision-differs", 0) * 5 > total:
         chk.notes.append({"model-drift": "%d of %d replays stopped because the engine decided differently from the model (see drift notes)"
